@@ -167,10 +167,10 @@ inductive Next (c : Cfg) : Sys → Sys → Prop where
       Next c σ { σ with loc := upd σ.loc s y, frm := upd σ.frm s e, sent := upd σ.sent s false, slots := k,
                         proc := upd σ.proc s (procEffect e (σ.proc s)) }
   /-- `step_state_bulletin`: one received state is written to `current_states` -/
-  | deliver (σ : Sys) (s : Nat) (x : PSt) (rest : List PSt) (h : σ.chan s = x :: rest) :
+  | deliver (σ : Sys) (s : Nat) (hs : s < c.n) (x : PSt) (rest : List PSt) (h : σ.chan s = x :: rest) :
       Next c σ { σ with chan := upd σ.chan s rest, pub := upd σ.pub s x }
   /-- the step command ends -/
-  | procExit (σ : Sys) (s : Nat) (ok : Bool) (h : σ.proc s = .running) :
+  | procExit (σ : Sys) (s : Nat) (hs : s < c.n) (ok : Bool) (h : σ.proc s = .running) :
       Next c σ { σ with proc := upd σ.proc s (.exited ok) }
   /-- `step_state_loop` returns an error or panics (fix K4b) -/
   | die (σ : Sys) (s : Nat) (hs : s < c.n) (h2 : σ.fin s = false) (hnt : (σ.loc s).terminal = false) :
@@ -292,11 +292,13 @@ def stepL (c : Cfg) (σ : Sys) : Label → Option Sys
         | _, _ => none
       else none
   | .deliver s =>
-      match σ.chan s with
-      | x :: rest => some { σ with chan := upd σ.chan s rest, pub := upd σ.pub s x }
-      | [] => none
+      if s < c.n then
+        match σ.chan s with
+        | x :: rest => some { σ with chan := upd σ.chan s rest, pub := upd σ.pub s x }
+        | [] => none
+      else none
   | .procExit s ok =>
-      if σ.proc s = .running then some { σ with proc := upd σ.proc s (.exited ok) } else none
+      if s < c.n ∧ σ.proc s = .running then some { σ with proc := upd σ.proc s (.exited ok) } else none
   | .die s =>
       if s < c.n ∧ σ.fin s = false ∧ (σ.loc s).terminal = false then
         some { σ with loc := upd σ.loc s .Broken, frm := upd σ.frm s .KeepBroken, sent := upd σ.sent s true,
